@@ -11,7 +11,7 @@ type DataqueryIdentification struct {
 
 func (pass *DataqueryIdentification) Process(schemas []*ast.Schema) ([]*ast.Schema, error) {
 	commonDataquery, found := ast.Schemas(schemas).LocateObject("common", "DataQuery")
-	if !found {
+	if !found || !commonDataquery.Type.IsStruct() {
 		return schemas, nil
 	}
 
